@@ -170,3 +170,26 @@ def c13_plan(ctx, tier):
 
 
 PLANS["C13"] = c13_plan
+
+
+def c14_plan(ctx, tier):
+    q = tier == "quick"
+    ctx.mc_replay("cost", "MC_Cost.tla", "MC_Cost.cfg", "fam_loopq.json", ["C14"], replaycmd="replaycost", workers=8,
+                  consts={"N": 3 if q else 4, "NF": 2, "FamN": 8 if q else 12, "FamNF": 3}, timeout=3400)
+    ctx.vh("costcheck", ["costcheck"] + ([] if q else ["-deep"]), timeout=3400)
+    ctx.trace("panic-freedom", ["C14"], sessions=60 if q else 600, calls=40 if q else 80, kinds="3,4,4,5,5,8,8,6,0", check_attrs=True,
+              extra=["-nounsafe=false"], timeout=3400)
+    return dict(rule=("TLC enumerates every verdict matrix (which handler accepts which block of tokens) up to N tokens x NF handlers and six "
+                      "adversarial families up to FamN tokens and checks that the transcribed recursiveCheck is Correct (= exists a "
+                      "segmentation) and Polynomial (handler calls <= nf*n(n+1)/2); every matrix is replayed through the real "
+                      "css.recursiveCheck with synthetic counting handlers (verdict and call count compared; abort budget 4*nf*n^2+16); "
+                      "costcheck: for each of the ~210 default handlers every atom the handler accepts repeatedly x n in {8,16,24,...} "
+                      "(+ rejected tail) through Policy.Sanitize with a budget on recursiveCheck invocations (2000+50n^3), and 12 "
+                      "growth generators (nesting, attribute lists, escapes, entities, ...) with doubling sizes and generous time limits; "
+                      "panic-freedom: every call of the recorded byte-level sessions (soup, raw bytes, XSS vectors, AllowUnsafe allowed) "
+                      "must return (a recovered panic is a violation) and is trace-validated. non-trivial = matrices needing > 1 handler call"),
+                exhaustive=False,
+                assumptions=ASSUME_COMMON + ["wall-clock promptness is judged by operation counts (handler calls, recursiveCheck invocations); time only with generous absolute limits"])
+
+
+PLANS["C14"] = c14_plan
